@@ -1,6 +1,7 @@
 #![allow(dead_code, unused_imports, unused_variables)]
 mod codec;
 mod crypto;
+mod driver;
 mod kstrace;
 mod observer;
 mod oracles;
@@ -159,6 +160,35 @@ fn main() {
             0
         }
         "replay" => cmd_replay(&args),
+        "drive" => {
+            // random driver: --out file.ndjson --seed S --num N --len L --parties P --features a,b
+            let out = arg(&args, "--out").expect("--out");
+            let seed = arg_u64(&args, "--seed", 1);
+            let num = arg_u64(&args, "--num", 20);
+            let len = arg_u64(&args, "--len", 60) as usize;
+            let np = arg_u64(&args, "--parties", 5) as usize;
+            let feats: Vec<String> = arg(&args, "--features").unwrap_or_else(|| "apps,storage,custom,gce,extcommit".into()).split(',').map(|s| s.to_string()).collect();
+            std::panic::set_hook(Box::new(|_| {}));
+            let mut f = std::fs::File::create(&out).expect("out");
+            let mut total = 0usize;
+            for i in 0..num {
+                let mut opts = pick_opts(seed, i, !args.iter().any(|a| a == "--single-backend"));
+                let mut rng = <rand::rngs::StdRng as rand::SeedableRng>::seed_from_u64(seed * 7919 + i);
+                opts.path_required = rand::Rng::random_range(&mut rng, 0..2) == 0;
+                opts.encrypt_controls = rand::Rng::random_range(&mut rng, 0..3) == 0;
+                let names: Vec<String> = (1..=np).map(|k| format!("p{k}")).collect();
+                let fr: Vec<&str> = feats.iter().map(|s| s.as_str()).collect();
+                let oj = opts_json(&opts);
+                let d = driver::Driver::new(opts, names, seed * 104729 + i, &fr);
+                let mut b = d.run(len);
+                b["opts"] = oj;
+                total += b["steps"].as_array().map(|a| a.len()).unwrap_or(0);
+                use std::io::Write;
+                writeln!(f, "{}", b).ok();
+            }
+            println!("{}", json!({"traces": num, "steps": total}));
+            0
+        }
         "codec" => {
             let out = arg(&args, "--out").expect("--out");
             std::panic::set_hook(Box::new(|_| {}));
